@@ -9,7 +9,8 @@ open Fs Fs.Path Fs.Parse Fs.FtpParse Fs.ParseLemmas
 
 /-! ### totality of the LIST parsers -/
 
-theorem finishTime_fixed_ok (y : Nat) (t : Option Tm) : ∃ r, finishTime true y t = .ok r := by
+/-- `_parse_time` never raises: an impossible `datetime` yields `None` -/
+theorem finishTime_ok (y : Nat) (t : Option Tm) : ∃ r, finishTime y t = .ok r := by
   unfold finishTime
   cases t with
   | none => exact ⟨_, rfl⟩
@@ -19,70 +20,54 @@ theorem finishTime_fixed_ok (y : Nat) (t : Option Tm) : ∃ r, finishTime true y
     · exact ⟨_, rfl⟩
     · exact ⟨_, rfl⟩
 
-theorem skipErr_fixed_ok (r : Res ListInfo) : ∃ o, skipErr true r = .ok o := by
-  cases r <;> exact ⟨_, rfl⟩
+theorem finishTime_ne_err (y : Nat) (t : Option Tm) (e : Err) : finishTime y t ≠ .err e := by
+  obtain ⟨r, hr⟩ := finishTime_ok y t
+  rw [hr]; intro h; cases h
 
-theorem parseLine_fixed_total (y : Nat) (l : Str) : ∃ r, parseLine true y l = .ok r := by
+theorem intOfDigits_err (s : Str) (e : Err) (h : intOfDigits s = .err e) : e = .ValueError := by
+  unfold intOfDigits at h; split at h <;> cases h; rfl
+
+/-- the only exception `decode_linux` can raise is the `ValueError` of `int(size)` -/
+theorem decodeLinux_err (y : Nat) (l : Str) (g : LinuxGroups) (e : Err)
+    (h : decodeLinux y l g = .err e) : e = .ValueError := by
+  unfold decodeLinux decodeLinuxTime at h
+  simp only at h
+  split at h
+  · rename_i heq; exact absurd heq (finishTime_ne_err _ _ _)
+  · split at h
+    · rename_i heq; cases h; exact intOfDigits_err _ _ heq
+    · cases h
+
+theorem decodeNt_err (y : Nat) (l : Str) (g : NtGroups) (e : Err)
+    (h : decodeNt y l g = .err e) : e = .ValueError := by
+  unfold decodeNt decodeNtTime at h
+  split at h
+  · rename_i heq
+    cases h
+    unfold ntSize at heq
+    split at heq
+    · cases heq
+    · split at heq
+      · cases heq
+      · rename_i h2; cases heq; exact intOfDigits_err _ _ h2
+  · split at h
+    · rename_i heq; exact absurd heq (finishTime_ne_err _ _ _)
+    · cases h
+
+/-- `except ValueError` catches everything a decoder can raise -/
+theorem skipErr_ok (r : Res ListInfo) (h : ∀ e, r = .err e → e = .ValueError) :
+    ∃ o, skipErr r = .ok o := by
+  cases r with
+  | ok i => exact ⟨_, rfl⟩
+  | err e => rw [h e rfl]; exact ⟨none, rfl⟩
+
+theorem parseLine_total (y : Nat) (l : Str) : ∃ r, parseLine y l = .ok r := by
   unfold parseLine
   split
-  · exact skipErr_fixed_ok _
+  · exact skipErr_ok _ (fun e he => decodeLinux_err _ _ _ e he)
   · split
-    · exact skipErr_fixed_ok _
+    · exact skipErr_ok _ (fun e he => decodeNt_err _ _ _ e he)
     · exact ⟨_, rfl⟩
-
-theorem parseLine_err_only_ValueError (fx : Bool) (y : Nat) (l : Str) (e : Err)
-    (h : parseLine fx y l = .err e) : e = .ValueError := by
-  have hft : ∀ t e, finishTime fx y t = .err e → e = .ValueError := by
-    intro t e h
-    unfold finishTime at h
-    cases t with
-    | none => cases h
-    | some tm =>
-      simp only at h
-      split at h
-      · cases h
-      · split at h
-        · cases h
-        · cases h; rfl
-  have hint : ∀ s e, intOfDigits s = .err e → e = .ValueError := by
-    intro s e h; unfold intOfDigits at h; split at h <;> cases h; rfl
-  have hskip : ∀ r, (∀ e, r = .err e → e = .ValueError) → skipErr fx r = .err e → e = .ValueError := by
-    intro r hr h
-    cases r with
-    | ok i => cases h
-    | err e' =>
-      simp only [skipErr] at h
-      split at h
-      · cases h
-      · cases h; exact hr _ rfl
-  unfold parseLine at h
-  split at h
-  · refine hskip _ ?_ h
-    intro e' he
-    unfold decodeLinux decodeLinuxTime at he
-    simp only at he
-    split at he
-    · rename_i heq; cases he; exact hft _ _ heq
-    · split at he
-      · rename_i heq; cases he; exact hint _ _ heq
-      · cases he
-  · split at h
-    · refine hskip _ ?_ h
-      intro e' he
-      unfold decodeNt decodeNtTime at he
-      split at he
-      · rename_i heq
-        cases he
-        unfold ntSize at heq
-        split at heq
-        · cases heq
-        · split at heq
-          · cases heq
-          · rename_i h2; cases heq; exact hint _ _ h2
-      · split at he
-        · rename_i heq; cases he; exact hft _ _ heq
-        · cases he
-    · cases h
 
 theorem validDate_iff (y m d : Nat) :
     validDate y m d = true ↔ 1 ≤ y ∧ y ≤ 9999 ∧ 1 ≤ m ∧ m ≤ 12 ∧ 1 ≤ d ∧ d ≤ daysInMonth y m := by
@@ -98,13 +83,13 @@ theorem daysInMonth_1900_le (y m : Nat) : daysInMonth 1900 m ≤ daysInMonth y m
   · have : (m == 2) = false := by simpa using h
     simp [this]
 
-/-- the pinned `_parse_time` raises exactly for "Feb 29 HH:MM" in a non-leap current year -/
-theorem finishTime_err_iff (y : Nat) (hy : 1 ≤ y ∧ y ≤ 9999) (tm : Tm) (hv : tmValid tm = true)
-    (e : Err) :
-    finishTime false y (some tm) = .err e ↔
-      (e = .ValueError ∧ tm.year = none ∧ tm.month = 2 ∧ tm.day = 29 ∧ isLeap y = false) := by
+/-- for a time that `strptime` accepted, `_parse_time` gives no value exactly for
+    "Feb 29 HH:MM" in a non-leap current year (where `datetime(...)` raises and is caught) -/
+theorem finishTime_none_iff (y : Nat) (hy : 1 ≤ y ∧ y ≤ 9999) (tm : Tm) (hv : tmValid tm = true) :
+    finishTime y (some tm) = .ok none ↔
+      (tm.year = none ∧ tm.month = 2 ∧ tm.day = 29 ∧ isLeap y = false) := by
   unfold finishTime
-  simp only [Bool.false_eq_true, if_false]
+  simp only
   unfold tmValid at hv
   cases hyr : tm.year with
   | some yy =>
@@ -136,17 +121,15 @@ theorem finishTime_err_iff (y : Nat) (hy : 1 ≤ y ∧ y ≤ 9999) (tm : Tm) (hv
           have : ¬ validDate y tm.month tm.day = true := by
             rw [validDate_iff, hm, hd]; simp [daysInMonth, hl']
           simpa using this
-        simp only [this, Bool.false_eq_true, if_false, Res.err.injEq]
-        constructor
-        · intro h; exact ⟨h.symm, trivial, hm, hd, hl'⟩
-        · intro h; exact h.1.symm
+        rw [hm, hd] at this
+        simp [this, hm, hd, hl']
     · simp only [hfeb, Bool.false_eq_true, if_false] at hv
       have : validDate y tm.month tm.day = true := by
         rw [validDate_iff] at hv ⊢
         have := daysInMonth_1900_le y tm.month
         omega
-      simp only [this, if_true, reduceCtorEq, false_iff, not_and]
-      intro _ _ hm hd
+      simp only [this, if_true, Res.ok.injEq, reduceCtorEq, false_iff, not_and]
+      intro _ hm hd
       simp [hm, hd] at hfeb
 
 /-- value of a line result (errors carry no value) -/
@@ -155,10 +138,10 @@ def okVal {α} (r : Res (Option α)) : Option α :=
   | .ok o => o
   | .err _ => none
 
-theorem parse_eq_filterMap (fx : Bool) (y : Nat) (lines : List Str)
-    (h : ∀ l ∈ lines, strip l ≠ [] → ∃ r, parseLine fx y l = .ok r) :
-    parse fx y lines = .ok ((lines.filter (fun l => decide (strip l ≠ []))).filterMap
-      (fun l => okVal (parseLine fx y l))) := by
+theorem parse_eq_filterMap (y : Nat) (lines : List Str)
+    (h : ∀ l ∈ lines, strip l ≠ [] → ∃ r, parseLine y l = .ok r) :
+    parse y lines = .ok ((lines.filter (fun l => decide (strip l ≠ []))).filterMap
+      (fun l => okVal (parseLine y l))) := by
   induction lines with
   | nil => rfl
   | cons l rest ih =>
@@ -170,8 +153,8 @@ theorem parse_eq_filterMap (fx : Bool) (y : Nat) (lines : List Str)
       simp only [hb, if_false, hr, ih']
       cases r <;> simp [hb, hr, okVal]
 
-theorem parse_err (fx : Bool) (y : Nat) (lines : List Str) (e : Err)
-    (h : parse fx y lines = .err e) : ∃ l ∈ lines, strip l ≠ [] ∧ parseLine fx y l = .err e := by
+theorem parse_err (y : Nat) (lines : List Str) (e : Err)
+    (h : parse y lines = .err e) : ∃ l ∈ lines, strip l ≠ [] ∧ parseLine y l = .err e := by
   induction lines with
   | nil => cases h
   | cons l rest ih =>
@@ -181,14 +164,14 @@ theorem parse_err (fx : Bool) (y : Nat) (lines : List Str) (e : Err)
       obtain ⟨l', hl', h'⟩ := ih h
       exact ⟨l', List.mem_cons_of_mem _ hl', h'⟩
     · simp only [hb, if_false] at h
-      cases hr : parseLine fx y l with
+      cases hr : parseLine y l with
       | err e' =>
         rw [hr] at h; cases h
         exact ⟨l, by simp, hb, hr⟩
       | ok r =>
         rw [hr] at h
         simp only at h
-        cases hp : parse fx y rest with
+        cases hp : parse y rest with
         | err e' =>
           rw [hp] at h; cases h
           obtain ⟨l', hl', h'⟩ := ih hp
@@ -197,39 +180,58 @@ theorem parse_err (fx : Bool) (y : Nat) (lines : List Str) (e : Err)
 
 /-! ### MLSD -/
 
-theorem parseFtpTime_fixed_ok (t : Str) : ∃ r, parseFtpTime true t = .ok r := by
+theorem timegm_err (y m d h mi s : Int) (e : Err) (he : timegm y m d h mi s = .err e) :
+    e = .ValueError := by
+  unfold timegm at he; split at he <;> cases he; rfl
+
+/-- `_parse_ftp_time` never raises (`calendar.timegm` is inside the `try`) -/
+theorem parseFtpTime_ok (t : Str) : ∃ r, parseFtpTime t = .ok r := by
   unfold parseFtpTime
   split
-  · split <;> exact ⟨_, rfl⟩
+  · split
+    · exact ⟨_, rfl⟩
+    · rename_i e heq
+      rw [timegm_err _ _ _ _ _ _ e heq]
+      exact ⟨none, rfl⟩
   · exact ⟨_, rfl⟩
 
-theorem mlsdSize_fixed_ok (facts : List (Str × Str)) : ∃ n, mlsdSize true facts = .ok n := by
+theorem mlsdSize_ok (facts : List (Str × Str)) : ∃ n, mlsdSize facts = .ok n := by
   unfold mlsdSize
   simp only
   split
   · split <;> exact ⟨_, rfl⟩
   · exact ⟨_, rfl⟩
 
-theorem mlsdTime_fixed_ok (facts : List (Str × Str)) (k : Str) : ∃ r, mlsdTime true facts k = .ok r := by
+theorem mlsdTime_ok (facts : List (Str × Str)) (k : Str) : ∃ r, mlsdTime facts k = .ok r := by
   unfold mlsdTime
   split
   · exact ⟨_, rfl⟩
   · rename_i v _
-    obtain ⟨r, hr⟩ := parseFtpTime_fixed_ok v
+    obtain ⟨r, hr⟩ := parseFtpTime_ok v
     rw [hr]; exact ⟨_, rfl⟩
 
-theorem parseMlsxLine_fixed_total (l : Str) : ∃ r, parseMlsxLine true l = .ok r := by
+theorem parseMlsxLine_total (l : Str) : ∃ r, parseMlsxLine l = .ok r := by
   unfold parseMlsxLine
   simp only
   split
   · exact ⟨_, rfl⟩
   · split
     · exact ⟨_, rfl⟩
-    · obtain ⟨n, hn⟩ := mlsdSize_fixed_ok (parseFacts (strip l)).2
-      obtain ⟨m, hm⟩ := mlsdTime_fixed_ok (parseFacts (strip l)).2 kModify
-      obtain ⟨c, hc⟩ := mlsdTime_fixed_ok (parseFacts (strip l)).2 kCreate
+    · obtain ⟨n, hn⟩ := mlsdSize_ok (parseFacts (strip l)).2
+      obtain ⟨m, hm⟩ := mlsdTime_ok (parseFacts (strip l)).2 kModify
+      obtain ⟨c, hc⟩ := mlsdTime_ok (parseFacts (strip l)).2 kCreate
       rw [hn, hm, hc]
       exact ⟨_, rfl⟩
+
+theorem parseMlsx_total (ls : List Str) : ∃ r, parseMlsx ls = .ok r := by
+  induction ls with
+  | nil => exact ⟨_, rfl⟩
+  | cons l rest ih =>
+    obtain ⟨r, hr⟩ := parseMlsxLine_total l
+    obtain ⟨rs, hrs⟩ := ih
+    unfold parseMlsx
+    rw [hr, hrs]
+    exact ⟨_, rfl⟩
 
 /-! ### splitlines -/
 
@@ -690,10 +692,10 @@ theorem days_from_first (y m d : Nat) (hd : 1 ≤ d) :
   omega
 
 /-- `_parse_ftp_time` on a well-formed `YYYYMMDDHHMMSS[.fraction]` -/
-theorem ftp_time_roundtrip_core (fx : Bool) (y m d h mi s : Nat) (frac : Str)
+theorem ftp_time_roundtrip_core (y m d h mi s : Nat) (frac : Str)
     (hy : 1 ≤ y ∧ y ≤ 9999) (hm : 1 ≤ m ∧ m ≤ 12) (hd : 1 ≤ d ∧ d < 100) (hh : h < 100) (hmi : mi < 100)
     (hs : s < 100) :
-    parseFtpTime fx (stamp y m d h mi s ++ frac) = .ok (some (epochOf y m d h mi s)) := by
+    parseFtpTime (stamp y m d h mi s ++ frac) = .ok (some (epochOf y m d h mi s)) := by
   unfold parseFtpTime
   have e1 : (stamp y m d h mi s ++ frac).take 4 = pad4 y := by simp [stamp, pad4, pad2]
   have e2 : ((stamp y m d h mi s ++ frac).drop 4).take 2 = pad2 m := by simp [stamp, pad4, pad2]
@@ -809,10 +811,10 @@ theorem strip_render (facts : List (Str × Str)) (name : Str) (hf : ∀ kv ∈ f
       simp only [List.cons_append, List.nil_append, List.append_assoc]
       exact stops_cons _ _ _ (hn.strip.2 c r hr)
 
-theorem mlsdSize_digits (fx : Bool) (F : List (Str × Str)) (sz : Str)
+theorem mlsdSize_digits (F : List (Str × Str)) (sz : Str)
     (hsz : (dictGet kSize F).getD ((dictGet kSizd F).getD ['0']) = sz)
     (hne : sz ≠ []) (hd : ∀ c ∈ sz, isDigit c = true) (hlen : sz.length ≤ maxStrDigits) :
-    mlsdSize fx F = .ok (natOfDigits sz) := by
+    mlsdSize F = .ok (natOfDigits sz) := by
   unfold mlsdSize
   simp only [hsz]
   have hall : sz.all isDigitProp = true := by
@@ -820,30 +822,30 @@ theorem mlsdSize_digits (fx : Bool) (F : List (Str × Str)) (sz : Str)
   rw [if_pos ⟨hne, hall⟩, pyInt_digits sz hne hd hlen]
   simp
 
-theorem mlsdTime_absent (fx : Bool) (F : List (Str × Str)) (k : Str) (h : dictGet k F = none) :
-    mlsdTime fx F k = .ok none := by
+theorem mlsdTime_absent (F : List (Str × Str)) (k : Str) (h : dictGet k F = none) :
+    mlsdTime F k = .ok none := by
   unfold mlsdTime; rw [h]
 
-theorem mlsdTime_stamp (fx : Bool) (F : List (Str × Str)) (k : Str) (y m d h mi s : Nat) (frac : Str)
+theorem mlsdTime_stamp (F : List (Str × Str)) (k : Str) (y m d h mi s : Nat) (frac : Str)
     (hk : dictGet k F = some (stamp y m d h mi s ++ frac))
     (hy : 1 ≤ y ∧ y ≤ 9999) (hm : 1 ≤ m ∧ m ≤ 12) (hd : 1 ≤ d ∧ d < 100) (hh : h < 100) (hmi : mi < 100)
     (hs : s < 100) :
-    mlsdTime fx F k = .ok (some (some (epochOf y m d h mi s))) := by
+    mlsdTime F k = .ok (some (some (epochOf y m d h mi s))) := by
   unfold mlsdTime
   rw [hk]
   simp only
-  rw [ftp_time_roundtrip_core fx y m d h mi s frac hy hm hd hh hmi hs]
+  rw [ftp_time_roundtrip_core y m d h mi s frac hy hm hd hh hmi hs]
 
-theorem mlsd_roundtrip_core (fx : Bool) (facts : List (Str × Str)) (name : Str)
+theorem mlsd_roundtrip_core (facts : List (Str × Str)) (name : Str)
     (hf : ∀ kv ∈ facts, WFFact kv) (hne : facts ≠ []) (hn : WFName name)
     (hnd : (facts.map (fun kv => lower kv.1)).Nodup)
     (ty : Str) (hty : (dictGet kType (facts.map (fun kv => (lower kv.1, kv.2)))).getD kFile = ty)
     (htyok : ty = kDir ∨ ty = kFile)
-    (sz : Nat) (hsz : mlsdSize fx (facts.map (fun kv => (lower kv.1, kv.2))) = .ok sz)
+    (sz : Nat) (hsz : mlsdSize (facts.map (fun kv => (lower kv.1, kv.2))) = .ok sz)
     (mo cr : Option (Option Int))
-    (hmo : mlsdTime fx (facts.map (fun kv => (lower kv.1, kv.2))) kModify = .ok mo)
-    (hcr : mlsdTime fx (facts.map (fun kv => (lower kv.1, kv.2))) kCreate = .ok cr) :
-    parseMlsxLine fx (renderMlsd facts name) =
+    (hmo : mlsdTime (facts.map (fun kv => (lower kv.1, kv.2))) kModify = .ok mo)
+    (hcr : mlsdTime (facts.map (fun kv => (lower kv.1, kv.2))) kCreate = .ok cr) :
+    parseMlsxLine (renderMlsd facts name) =
       .ok (some ⟨name, ty = kDir, facts.map (fun kv => (lower kv.1, kv.2)), sz, mo, cr⟩) := by
   unfold parseMlsxLine
   simp only [strip_render facts name hf hne hn, parseFacts_render facts name hf hn hnd, hty, hsz, hmo, hcr]
@@ -852,12 +854,12 @@ theorem mlsd_roundtrip_core (fx : Bool) (facts : List (Str × Str)) (name : Str)
   rw [if_neg this]
 
 /-- a line whose type is neither `dir` nor `file` (cdir, pdir, OS.unix=slink…) is skipped -/
-theorem mlsd_other_skipped (fx : Bool) (facts : List (Str × Str)) (name : Str)
+theorem mlsd_other_skipped (facts : List (Str × Str)) (name : Str)
     (hf : ∀ kv ∈ facts, WFFact kv) (hne : facts ≠ []) (hn : WFName name)
     (hnd : (facts.map (fun kv => lower kv.1)).Nodup)
     (ty : Str) (hty : dictGet kType (facts.map (fun kv => (lower kv.1, kv.2))) = some ty)
     (h1 : ty ≠ kDir) (h2 : ty ≠ kFile) :
-    parseMlsxLine fx (renderMlsd facts name) = .ok none := by
+    parseMlsxLine (renderMlsd facts name) = .ok none := by
   unfold parseMlsxLine
   simp only [strip_render facts name hf hne hn, parseFacts_render facts name hf hn hnd, hty,
     Option.getD_some]
@@ -1078,24 +1080,24 @@ theorem strpNt12_render (e : NtEntry) (h : WFNtTime e) (h12 : e.twelve = true) :
 theorem fullYear_range (yy : Nat) (h : yy < 100) : 1969 ≤ fullYear yy ∧ fullYear yy ≤ 2068 := by
   unfold fullYear; split <;> omega
 
-theorem finishTime_year (fx : Bool) (cy y m d hh mi : Nat) (hy : y ≠ 1900) (hv : validDate y m d = true) :
-    finishTime fx cy (some ⟨some y, m, d, hh, mi⟩) = .ok (some (epochOf y m d hh mi 0)) := by
+theorem finishTime_year (cy y m d hh mi : Nat) (hy : y ≠ 1900) (hv : validDate y m d = true) :
+    finishTime cy (some ⟨some y, m, d, hh, mi⟩) = .ok (some (epochOf y m d hh mi 0)) := by
   unfold finishTime substYear
   simp [hy, hv]
 
-theorem decodeNtTime_render (fx : Bool) (cy : Nat) (e : NtEntry) (h : WFNtTime e) :
-    decodeNtTime fx cy (ntTimeText e) =
+theorem decodeNtTime_render (cy : Nat) (e : NtEntry) (h : WFNtTime e) :
+    decodeNtTime cy (ntTimeText e) =
       .ok (some (epochOf (fullYear e.yy) e.month e.day e.hour e.minute 0)) := by
   unfold decodeNtTime
   have hyr : fullYear e.yy ≠ 1900 := by have := fullYear_range e.yy h.yy; omega
   cases h12 : e.twelve with
   | true =>
     rw [strpNt12_render e h h12]
-    exact finishTime_year fx cy _ _ _ _ _ hyr h.date
+    exact finishTime_year cy _ _ _ _ _ hyr h.date
   | false =>
     obtain ⟨h1, h2⟩ := strpNt24_render e h h12
     rw [h1, h2]
-    exact finishTime_year fx cy _ _ _ _ _ hyr h.date
+    exact finishTime_year cy _ _ _ _ _ hyr h.date
 
 /-! ### RE_WINDOWSNT on a rendered line -/
 
@@ -1166,8 +1168,8 @@ theorem reNt_render (e : NtEntry) (h : WFNt e) :
       rw [nameTok_space _ h.name_start h.name_nl]
       rfl
 
-theorem nt_line_roundtrip_core (fx : Bool) (cy : Nat) (e : NtEntry) (h : WFNt e) :
-    parseLine fx cy (renderNt e) = .ok (some ⟨e.name, e.size.isNone, e.size.map natOfDigits,
+theorem nt_line_roundtrip_core (cy : Nat) (e : NtEntry) (h : WFNt e) :
+    parseLine cy (renderNt e) = .ok (some ⟨e.name, e.size.isNone, e.size.map natOfDigits,
       some (epochOf (fullYear e.yy) e.month e.day e.hour e.minute 0), none, none, none, renderNt e⟩) := by
   unfold parseLine
   have hlin : reLinux (renderNt e) = none := by
@@ -1193,7 +1195,7 @@ theorem nt_line_roundtrip_core (fx : Bool) (cy : Nat) (e : NtEntry) (h : WFNt e)
       rw [if_neg (by omega)]
   rw [hsz]
   simp only
-  have := decodeNtTime_render fx cy e h.time
+  have := decodeNtTime_render cy e h.time
   unfold ntTimeText at this
   rw [this]
   rfl
@@ -1317,8 +1319,8 @@ theorem tmValid_noyear (cy m d h mi : Nat) (hv : validDate cy m d = true) :
         simp [this]
       omega
 
-theorem decodeLinuxTime_render (fx : Bool) (cy month day : Nat) (t : LTime) (h : wfLTime cy month day t) :
-    decodeLinuxTime fx cy (linuxTimeText month day t) = .ok (some (ltimeEpoch cy month day t)) := by
+theorem decodeLinuxTime_render (cy month day : Nat) (t : LTime) (h : wfLTime cy month day t) :
+    decodeLinuxTime cy (linuxTimeText month day t) = .ok (some (ltimeEpoch cy month day t)) := by
   have hr : 1 ≤ day ∧ day ≤ 31 ∧ 1 ≤ month ∧ month ≤ 12 := by
     cases t with
     | year y => exact valid_ranges _ _ _ h.1
@@ -1341,7 +1343,7 @@ theorem decodeLinuxTime_render (fx : Bool) (cy month day : Nat) (t : LTime) (h :
       simp only [htok, hmo, hday, renderLTime, allDigits_pad4, natOfDigits_pad4 y hy4]
       simp [pad4, tmValid, hv]
     rw [this]
-    exact finishTime_year fx cy _ _ _ _ _ hy hv
+    exact finishTime_year cy _ _ _ _ _ hy hv
   | clock hh mi =>
     obtain ⟨hh24, hmi60, hv⟩ := h
     have h1 : strpBdY (linuxTimeText month day (.clock hh mi)) = none := by
@@ -1536,8 +1538,8 @@ theorem permNames_suffix (ps sfx : Str) (hp : permOk ps = true) : permNames (ps 
   match ps, hp.1 with
   | [a, b, c, d, e, f, g, h, i], _ => simp [permNames]
 
-theorem linux_line_roundtrip_core (fx : Bool) (cy : Nat) (e : LinuxEntry) (h : WFLinux cy e) :
-    parseLine fx cy (renderLinux e) = .ok (some ⟨e.name, e.ty == 'd' || e.ty == 'l',
+theorem linux_line_roundtrip_core (cy : Nat) (e : LinuxEntry) (h : WFLinux cy e) :
+    parseLine cy (renderLinux e) = .ok (some ⟨e.name, e.ty == 'd' || e.ty == 'l',
       some (natOfDigits e.size),
       some (ltimeEpoch cy e.month e.day e.time),
       some (permNames e.perms), some e.uid, some e.gid, renderLinux e⟩) := by
@@ -1546,7 +1548,7 @@ theorem linux_line_roundtrip_core (fx : Bool) (cy : Nat) (e : LinuxEntry) (h : W
   simp only
   unfold decodeLinux
   simp only
-  rw [decodeLinuxTime_render fx cy e.month e.day e.time h.time]
+  rw [decodeLinuxTime_render cy e.month e.day e.time h.time]
   simp only
   have : intOfDigits e.size = .ok (natOfDigits e.size) := by
     unfold intOfDigits; rw [if_neg (by have := h.size.2.2; omega)]
